@@ -409,27 +409,39 @@ Lemma wf_lookup w r t : wf w -> nth_error (trajs w) r = Some t -> reg_ok w t.
 Proof. intros Hw Hr. unfold wf in Hw. rewrite Forall_forall in Hw. apply Hw. eapply nth_error_In; eauto. Qed.
 
 (* ------------------------------------------------------------------ join *)
-Lemma join_trajs_ok w t others ct w' :
-  wf w -> join_trajs w t others ct = (w', ROk) ->
-  exists t',
-    trajs w' = trajs w ++ [t'] /\ hext w w' /\
-    frames w' t' = flat_map (frames w) (t :: others) /\
-    a_val (tm t') = flat_map (fun o => a_val (tm o)) (t :: others) /\
-    (if have_cell t then
-       exists l a, ul t' = Some l /\ ua t' = Some a /\ a_val l = ocat (map ul (t :: others)) /\ a_val a = ocat (map ua (t :: others))
-     else ul t' = None /\ ua t' = None) /\
-    na t' = na t /\ chains t' = chains t /\ tr t' = None /\ lengths_ok t' = true /\
-    reg_ok w' t' /\ fresh_reg w t' /\
-    forallb (fun o => Nat.eqb (na t) (na o)) others = true /\
-    forallb (fun o => Bool.eqb (have_cell t) (have_cell o)) others = true.
+Definition join_facts (v : variant) (w : world) (t : traj) (others : list traj) (dis : bool) (w' : world) (t' : traj)
+    (plan : list bool) : Prop :=
+  let all := t :: others in
+  join_plan dis (map (frames w) all) = Some plan /\
+  trajs w' = trajs w ++ [t'] /\ hext w w' /\
+  frames w' t' = jparts plan (map (frames w) all) /\
+  a_val (tm t') = jparts plan (map (fun o => a_val (tm o)) all) /\
+  (if have_cell t then
+     exists l a, ul t' = Some l /\ ua t' = Some a /\ a_val l = jparts plan (map (fun o => oval (ul o)) all) /\
+                 a_val a = jparts plan (map (fun o => oval (ua o)) all)
+   else ul t' = None /\ ua t' = None) /\
+  na t' = na t /\ chains t' = chains t /\
+  match join_traces v w t others dis with
+  | None => tr t' = None
+  | Some vals => exists c, tr t' = Some c /\ a_val c = vals
+  end /\
+  lengths_ok t' = true /\ reg_ok w' t' /\ fresh_reg w t' /\
+  forallb (fun o => Nat.eqb (na t) (na o)) others = true /\
+  forallb (fun o => Bool.eqb (have_cell t) (have_cell o)) others = true.
+
+(* the bare join: the result has no cache *)
+Lemma join_trajs_ok w t others ct dis w' :
+  join_trajs w t others ct dis = (w', ROk) ->
+  exists t' plan, join_facts v_fix w t others dis w' t' plan /\ tr t' = None /\ length (trajs w') = S (length (trajs w)).
 Proof.
-  unfold join_trajs. intros Hwf H.
+  unfold join_trajs. intros H.
   destruct (forallb (fun o => Nat.eqb (na t) (na o)) others) eqn:G1; cbn [negb] in H; [|inversion H].
   destruct (ct && negb (forallb (fun o => list_eqb (list_eqb Nat.eqb) (chains t) (chains o)) others)) eqn:G2; [inversion H|].
   destruct (forallb (fun o => Bool.eqb (have_cell t) (have_cell o)) others) eqn:G3; cbn [negb] in H; [|inversion H].
-  remember (flat_map (frames w) (t :: others)) as fs eqn:Efs.
+  destruct (join_plan dis (map (frames w) (t :: others))) as [plan|] eqn:Pl; [|inversion H].
+  remember (jparts plan (map (frames w) (t :: others))) as fs eqn:Efs.
   destruct (alloc_x w fs) as [w1 b] eqn:A.
-  destruct (new_arr w1 (flat_map (fun o => a_val (tm o)) (t :: others))) as [w2 tm'] eqn:N2.
+  destruct (new_arr w1 (jparts plan (map (fun o => a_val (tm o)) (t :: others)))) as [w2 tm'] eqn:N2.
   match type of H with (let '(w3, ua') := ?e in _) = _ => destruct e as [w3 ua'] eqn:N3 end.
   match type of H with (let '(w4, ul') := ?e in _) = _ => destruct e as [w4 ul'] eqn:N4 end.
   destruct (fresh_top w4) as [w5 tl] eqn:T5.
@@ -438,19 +450,19 @@ Proof.
   apply alloc_x_spec in A. destruct A as [A1 [A2 [A3 [A4 [A5 [A6 A7]]]]]].
   apply new_arr_spec in N2. destruct N2 as [B1 [B2 [B3 [B4 [B5 [B6 B7]]]]]].
   assert (E3 : ext w2 w3 /\ hx w3 = hx w2 /\ ntop w3 = ntop w2 /\ nbuf w2 <= nbuf w3 /\
-               (if have_cell t then exists a, ua' = Some a /\ a_val a = ocat (map ua (t :: others)) /\ nbuf w2 <= a_buf a < nbuf w3
+               (if have_cell t then exists a, ua' = Some a /\ a_val a = jparts plan (map (fun o => oval (ua o)) (t :: others)) /\ nbuf w2 <= a_buf a < nbuf w3
                 else ua' = None)).
   { destruct (have_cell t).
-    - destruct (new_arr w2 (ocat (map ua (t :: others)))) as [wa a] eqn:Na. inversion N3; subst.
+    - destruct (new_arr w2 _) as [wa a] eqn:Na. inversion N3; subst.
       apply new_arr_spec in Na. destruct Na as [Q1 [Q2 [Q3 [Q4 [Q5 [Q6 Q7]]]]]]. splits; auto; try lia.
       exists a. splits; auto; lia.
     - inversion N3; subst. splits; auto. apply ext_refl. }
   destruct E3 as [E3 [H3 [T3 [N3' C3]]]].
   assert (E4 : ext w3 w4 /\ hx w4 = hx w3 /\ ntop w4 = ntop w3 /\ nbuf w3 <= nbuf w4 /\
-               (if have_cell t then exists a, ul' = Some a /\ a_val a = ocat (map ul (t :: others)) /\ nbuf w3 <= a_buf a < nbuf w4
+               (if have_cell t then exists a, ul' = Some a /\ a_val a = jparts plan (map (fun o => oval (ul o)) (t :: others)) /\ nbuf w3 <= a_buf a < nbuf w4
                 else ul' = None)).
   { destruct (have_cell t).
-    - destruct (new_arr w3 (ocat (map ul (t :: others)))) as [wa a] eqn:Na. inversion N4; subst.
+    - destruct (new_arr w3 _) as [wa a] eqn:Na. inversion N4; subst.
       apply new_arr_spec in Na. destruct Na as [Q1 [Q2 [Q3 [Q4 [Q5 [Q6 Q7]]]]]]. splits; auto; try lia.
       exists a. splits; auto; lia.
     - inversion N4; subst. splits; auto. apply ext_refl. }
@@ -459,20 +471,26 @@ Proof.
   assert (E15 : ext w1 w5).
   { eapply ext_trans; [exact B1|]. eapply ext_trans; [exact E3|]. eapply ext_trans; [exact E4|exact P1]. }
   assert (Eall : ext w w5) by (eapply ext_trans; [exact A1|exact E15]).
-  eexists. split. { cbn [trajs push]. rewrite (ext_trajs _ _ Eall). reflexivity. }
+  exists (mkTraj b (seq 0 (length fs)) (na t) tm' ul' ua' tl (chains t) None false), plan.
+  split; [|split; [reflexivity|cbn [trajs push]; rewrite (ext_trajs _ _ Eall), app_length; cbn; lia]].
+  unfold join_facts. cbn zeta.
+  split; [exact Pl|].
+  split. { cbn [trajs push]. rewrite (ext_trajs _ _ Eall). reflexivity. }
   assert (Hh : hext w (push w5 (mkTraj b (seq 0 (length fs)) (na t) tm' ul' ua' tl (chains t) None false))).
   { eapply hext_trans; [apply ext_hext; exact Eall|apply hext_push]. }
   split; [exact Hh|].
   assert (Hbuf : buf_of (push w5 (mkTraj b (seq 0 (length fs)) (na t) tm' ul' ua' tl (chains t) None false)) b = fs).
   { unfold buf_of. cbn [hx push]. destruct (ext_hx _ _ E15) as [ex Hex]. rewrite Hex.
     rewrite app_nth1 by exact A4. exact A3. }
-  split. { apply frames_fresh_view. exact Hbuf. }
+  split. { rewrite <- Efs. apply frames_fresh_view. exact Hbuf. }
   cbn [tm ul ua na chains tr].
   split; [exact B4|].
   split. { destruct (have_cell t).
            - destruct C3 as [a [-> [Va _]]]. destruct C4 as [l [-> [Vl _]]]. exists l, a. auto.
            - destruct C3, C4. auto. }
-  split; [reflexivity|]. split; [reflexivity|]. split; [reflexivity|]. split; [exact Hc2|].
+  split; [reflexivity|]. split; [reflexivity|].
+  split. { unfold join_traces. cbn [join_keeps_traces v_fix andb]. reflexivity. }
+  split; [exact Hc2|].
   split.
   { split.
     - apply fresh_view_wf; [|exact Hbuf]. cbn [hx push]. pose proof (hext_hx_len _ _ (ext_hext _ _ E15)). lia.
@@ -485,7 +503,47 @@ Proof.
     - unfold oarr_above. destruct (have_cell t); [destruct C4 as [a [-> [_ ?]]]; lia|rewrite C4; auto].
     - unfold oarr_above. destruct (have_cell t); [destruct C3 as [a [-> [_ ?]]]; lia|rewrite C3; auto].
     - cbn. auto. }
-  split; reflexivity.
+  split; assumption.
+Qed.
+
+(* join with the cache of the chosen variant attached *)
+Lemma join_attached_ok v w t others ct dis w' x :
+  attach_traces w (join_trajs w t others ct dis) (join_traces v w t others dis) = (w', x) ->
+  match x with
+  | ROk => exists t' plan, join_facts v w t others dis w' t' plan
+  | RErr _ => True
+  end.
+Proof.
+  destruct (join_trajs w t others ct dis) as [w1 [|e]] eqn:J; [|unfold attach_traces; intros H; inversion H; subst; exact I].
+  destruct (join_trajs_ok _ _ _ _ _ _ J) as [t1 [plan [F [Htr Hlen]]]].
+  destruct F as [F1 [F2 [F3 [F4 [F5 [F6 [F7 [F8 [_ [F10 [F11 [F12 [F13 F14]]]]]]]]]]]]].
+  unfold attach_traces. destruct (join_traces v w t others dis) as [vals|] eqn:Jt.
+  - rewrite F2, nth_error_app_last.
+    destruct (new_arr w1 vals) as [w2 c] eqn:N. intros H; inversion H; subst w' x; clear H.
+    apply new_arr_spec in N. destruct N as [N1 [N2 [N3 [N4 [N5 [N6 N7]]]]]].
+    eexists. exists plan. unfold join_facts. cbn zeta. rewrite Jt.
+    split; [exact F1|].
+    split. { cbn [trajs put]. rewrite (ext_trajs _ _ N1), F2. apply set_nth_app_last. }
+    assert (Hh : hext w1 (put w2 (length (trajs w)) (mkTraj (xb t1) (xp t1) (na t1) (tm t1) (ul t1) (ua t1) (tloc t1) (chains t1) (Some c) (tdef t1)))).
+    { eapply hext_trans; [apply ext_hext; exact N1|apply hext_put]. }
+    split; [eapply hext_trans; eauto|].
+    split. { rewrite <- F4. unfold frames, buf_of. cbn [hx put xb xp]. now rewrite N6. }
+    cbn [tm ul ua na chains tr].
+    split; [exact F5|]. split; [exact F6|]. split; [exact F7|]. split; [exact F8|].
+    split; [exists c; auto|].
+    split; [exact F10|].
+    split.
+    { destruct (hext_reg_ok _ _ _ Hh F11) as [W1 I1]. split; [exact W1|].
+      destruct F11 as [_ [J1 [J2 [J3 [J4 J5]]]]].
+      unfold ids_below, oarr_below in *. cbn [tm ul ua tr tloc nbuf ntop put] in *. splits; try lia.
+      - destruct (ul t1); auto; lia.
+      - destruct (ua t1); auto; lia. }
+    split.
+    { destruct F12 as [K1 [K2 [K3 [K4 [K5 K6]]]]]. unfold fresh_reg. cbn [xb tm ul ua tr tloc]. splits; auto.
+      unfold oarr_above. pose proof (hext_hx_len _ _ F3). destruct F3 as [_ [Hn _]]. lia. }
+    split; assumption.
+  - intros H; inversion H; subst w' x; clear H.
+    exists t1, plan. unfold join_facts. cbn zeta. rewrite Jt. splits; auto.
 Qed.
 
 Ltac ids_tac :=
@@ -759,14 +817,51 @@ Ltac err_tac H :=
 Lemma slice_err v w r k copy w' e : do_slice v w r k copy = (w', RErr e) -> w' = w.
 Proof. unfold do_slice. intros H. err_tac H. Qed.
 
-Lemma join_trajs_err w t os ct w' e : join_trajs w t os ct = (w', RErr e) -> w' = w.
+Lemma join_trajs_err w t os ct dis w' e : join_trajs w t os ct dis = (w', RErr e) -> w' = w.
 Proof. unfold join_trajs. intros H. err_tac H. Qed.
 
-Lemma join_err w r os ct w' e : do_join w r os ct = (w', RErr e) -> w' = w.
-Proof. unfold do_join. intros H. err_tac H. all: eapply join_trajs_err; eauto. Qed.
+Lemma attach_err w wr tv w' e : attach_traces w wr tv = (w', RErr e) -> wr = (w', RErr e).
+Proof.
+  unfold attach_traces. destruct wr as [w1 [|e1]]; [|auto]. destruct tv as [vals|]; [|auto].
+  destruct (nth_error (trajs w1) (length (trajs w))); [|auto]. destruct (new_arr w1 vals). discriminate.
+Qed.
 
-Lemma mdjoin_err w rs w' e : do_mdjoin w rs = (w', RErr e) -> w' = w.
-Proof. unfold do_mdjoin. intros H. err_tac H. all: eapply join_trajs_err; eauto. Qed.
+Lemma join_err v w r os ct dis w' e : do_join v w r os ct dis = (w', RErr e) -> w' = w.
+Proof.
+  unfold do_join. intros H. destruct (nth_error (trajs w) r); [|inversion H; auto].
+  destruct (get_all w os); [|inversion H; auto]. apply attach_err in H. eapply join_trajs_err; eauto.
+Qed.
+
+Lemma mdjoin_err v w rs dis w' e : do_mdjoin v w rs dis = (w', RErr e) -> w' = w.
+Proof.
+  unfold do_mdjoin. intros H. destruct (get_all w rs) as [[|t [|o rest]]|]; try (inversion H; auto; fail).
+  apply attach_err in H. eapply join_trajs_err; eauto.
+Qed.
+
+Lemma join_step_full v w r others ct dis w' :
+  step v w (OJoin r others ct dis) = (w', ROk) ->
+  exists t os t' plan, nth_error (trajs w) r = Some t /\ get_all w others = Some os /\ join_facts v w t os dis w' t' plan.
+Proof.
+  cbn [step]. unfold do_join. intros H.
+  destruct (nth_error (trajs w) r) as [t|] eqn:Hr; [|discriminate].
+  destruct (get_all w others) as [os|] eqn:Ho; [|discriminate].
+  destruct (join_attached_ok _ _ _ _ _ _ _ _ H) as [t' [plan F]]. exists t, os, t', plan. auto.
+Qed.
+
+Lemma mdjoin_step_full v w rs dis w' :
+  step v w (OMdJoin rs dis) = (w', ROk) ->
+  exists t o rest t' plan, get_all w rs = Some (t :: o :: rest) /\ join_facts v w t (o :: rest) dis w' t' plan.
+Proof.
+  cbn [step]. unfold do_mdjoin. intros H.
+  destruct (get_all w rs) as [[|t [|o rest]]|] eqn:Ho; try discriminate.
+  destruct (join_attached_ok _ _ _ _ _ _ _ _ H) as [t' [plan F]]. exists t, o, rest, t', plan. auto.
+Qed.
+
+Ltac join_facts_tac H :=
+  first [ destruct (join_step_full _ _ _ _ _ _ _ H)
+            as [?t [?os [t' [?plan [_ [_ [_ [Ht [He [_ [_ [_ [_ [_ [Htr [Hlen [Hreg [Hfresh _]]]]]]]]]]]]]]]]]]
+        | destruct (mdjoin_step_full _ _ _ _ _ H)
+            as [?t [?o [?rest [t' [?plan [_ [_ [Ht [He [_ [_ [_ [_ [_ [Htr [Hlen [Hreg [Hfresh _]]]]]]]]]]]]]]]]]] ].
 
 Lemma stack_err w r r' w' e : do_stack w r r' = (w', RErr e) -> w' = w.
 Proof. unfold do_stack. intros H. err_tac H. Qed.
@@ -812,13 +907,10 @@ Proof.
     destruct (slice_ok _ _ _ _ _ _ _ Hwf Hr H) as [t' [xi [xs [_ [Ht [He [_ [_ [_ [_ [_ [_ [_ [Hreg _]]]]]]]]]]]]]].
     eapply wf_of_new; eauto.
   - (* join *) destruct r as [|e]; [|apply join_err in H; subst; auto].
-    unfold do_join in H. destruct (nth_error (trajs w) r0) as [t|]; [|discriminate].
-    destruct (get_all w others) as [os|]; [|discriminate].
-    destruct (join_trajs_ok _ _ _ _ _ Hwf H) as [t' [Ht [He [_ [_ [_ [_ [_ [_ [_ [Hreg _]]]]]]]]]]].
+    join_facts_tac H.
     eapply wf_of_new; eauto.
   - (* md.join *) destruct r as [|e]; [|apply mdjoin_err in H; subst; auto].
-    unfold do_mdjoin in H. destruct (get_all w rs) as [[|t [|o rest]]|]; try discriminate.
-    destruct (join_trajs_ok _ _ _ _ _ Hwf H) as [t' [Ht [He [_ [_ [_ [_ [_ [_ [_ [Hreg _]]]]]]]]]]].
+    join_facts_tac H.
     eapply wf_of_new; eauto.
   - (* stack *) destruct r as [|e]; [|apply stack_err in H; subst; auto].
     destruct (nth_error (trajs w) r0) as [t|] eqn:Hr; [|unfold do_stack in H; rewrite Hr in H; discriminate].
@@ -1121,13 +1213,10 @@ Proof.
     destruct (slice_ok _ _ _ _ _ _ _ Hwf Hr H) as [t' [xi [xs [Kx [Ht [He [Hf [_ [_ [_ [_ [_ [_ [_ [Htr _]]]]]]]]]]]]]]].
     eapply cinv_of_new; eauto. eapply slice_cache_fix; eauto. eapply cinv_lookup; eauto.
   - (* join *) destruct r as [|e]; [|apply join_err in H; subst; auto].
-    unfold do_join in H. destruct (nth_error (trajs w) r0) as [t|]; [|discriminate].
-    destruct (get_all w others) as [os|]; [|discriminate].
-    destruct (join_trajs_ok _ _ _ _ _ Hwf H) as [t' [Ht [He [_ [_ [_ [_ [_ [Htr _]]]]]]]]].
+    join_facts_tac H.
     eapply cinv_of_new; eauto. apply cache_ok_none; auto.
   - (* md.join *) destruct r as [|e]; [|apply mdjoin_err in H; subst; auto].
-    unfold do_mdjoin in H. destruct (get_all w rs) as [[|t [|o rest]]|]; try discriminate.
-    destruct (join_trajs_ok _ _ _ _ _ Hwf H) as [t' [Ht [He [_ [_ [_ [_ [_ [Htr _]]]]]]]]].
+    join_facts_tac H.
     eapply cinv_of_new; eauto. apply cache_ok_none; auto.
   - (* stack *) destruct r as [|e]; [|apply stack_err in H; subst; auto].
     destruct (nth_error (trajs w) r0) as [t|] eqn:Hr; [|unfold do_stack in H; rewrite Hr in H; discriminate].
@@ -1353,13 +1442,10 @@ Proof.
     destruct (slice_ok _ _ _ _ _ _ _ Hwf Hr H) as [t' [xi [xs [_ [Ht [_ [_ [_ [_ [_ [_ [_ [Hlen _]]]]]]]]]]]]].
     eapply lens_of_new; eauto.
   - destruct r as [|e]; [|apply join_err in H; subst; auto].
-    unfold do_join in H. destruct (nth_error (trajs w) r0) as [t|]; [|discriminate].
-    destruct (get_all w others) as [os|]; [|discriminate].
-    destruct (join_trajs_ok _ _ _ _ _ Hwf H) as [t' [Ht [_ [_ [_ [_ [_ [_ [_ [Hlen _]]]]]]]]]].
+    join_facts_tac H.
     eapply lens_of_new; eauto.
   - destruct r as [|e]; [|apply mdjoin_err in H; subst; auto].
-    unfold do_mdjoin in H. destruct (get_all w rs) as [[|t [|o rest]]|]; try discriminate.
-    destruct (join_trajs_ok _ _ _ _ _ Hwf H) as [t' [Ht [_ [_ [_ [_ [_ [_ [_ [Hlen _]]]]]]]]]].
+    join_facts_tac H.
     eapply lens_of_new; eauto.
   - destruct r as [|e]; [|apply stack_err in H; subst; auto].
     destruct (nth_error (trajs w) r0) as [t|] eqn:Hr; [|unfold do_stack in H; rewrite Hr in H; discriminate].
@@ -1547,7 +1633,7 @@ Qed.
 Definition makes_independent (o : op) : bool :=
   match o with
   | OSlice _ _ copy => copy
-  | OJoin _ _ _ | OMdJoin _ => true
+  | OJoin _ _ _ _ | OMdJoin _ _ => true
   | OAtomSlice _ _ inplace | ORemoveSolvent _ inplace => negb inplace
   | _ => false
   end.
@@ -1555,7 +1641,7 @@ Definition makes_independent (o : op) : bool :=
 Definition makes_new_xyz (o : op) : bool :=
   match o with
   | OSlice _ _ copy => copy
-  | OJoin _ _ _ | OMdJoin _ | OStack _ _ => true
+  | OJoin _ _ _ _ | OMdJoin _ _ | OStack _ _ => true
   | OAtomSlice _ _ inplace | ORemoveSolvent _ inplace => negb inplace
   | _ => false
   end.
@@ -1572,13 +1658,8 @@ Proof.
     destruct (nth_error (trajs w) r) as [t|] eqn:Hr; [|unfold do_slice in H; rewrite Hr in H; discriminate].
     destruct (slice_ok _ _ _ _ _ _ _ Hwf Hr H) as [t' [xi [xs [_ [Ht [_ [_ [_ [_ [_ [_ [_ [_ [_ [_ Hf]]]]]]]]]]]]]]].
     exists t'. split; auto.
-  - unfold do_join in H. destruct (nth_error (trajs w) r) as [t|]; [|discriminate].
-    destruct (get_all w others) as [os|]; [|discriminate].
-    destruct (join_trajs_ok _ _ _ _ _ Hwf H) as [t' [Ht [_ [_ [_ [_ [_ [_ [_ [_ [_ [Hf _]]]]]]]]]]]].
-    exists t'. split; auto.
-  - unfold do_mdjoin in H. destruct (get_all w rs) as [[|t [|o rest]]|]; try discriminate.
-    destruct (join_trajs_ok _ _ _ _ _ Hwf H) as [t' [Ht [_ [_ [_ [_ [_ [_ [_ [_ [_ [Hf _]]]]]]]]]]]].
-    exists t'. split; auto.
+  - fold (step v w (OJoin r others check_top dis)) in H. join_facts_tac H. exists t'. split; auto.
+  - fold (step v w (OMdJoin rs dis)) in H. join_facts_tac H. exists t'. split; auto.
   - destruct inplace; [discriminate|].
     destruct (nth_error (trajs w) r) as [t|] eqn:Hr; [|unfold do_atom_slice in H; rewrite Hr in H; discriminate].
     destruct (atom_slice_new_ok _ _ _ _ _ _ Hwf Hr H) as [t' [ni [_ [Ht [_ [_ [_ [_ [_ [_ [_ [_ [_ Hf]]]]]]]]]]]]].
@@ -1608,12 +1689,13 @@ Proof.
     + subst copy. destruct (nth_error (trajs w) r) as [t0|] eqn:Hr; [|unfold do_slice in H; rewrite Hr in H; discriminate].
       destruct (slice_ok _ _ _ _ _ _ _ Hwf Hr H) as [t2 [xi [xs [_ [Ht2 [_ [_ [_ [_ [_ [_ [_ [_ [_ [_ Hf]]]]]]]]]]]]]]].
       rewrite Ht in Ht2. apply app_inj_tail in Ht2. destruct Ht2 as [_ <-]. destruct (Hf eq_refl) as [? _]. auto.
-    + unfold do_join in H. destruct (nth_error (trajs w) r) as [t0|]; [|discriminate].
-      destruct (get_all w others) as [os|]; [|discriminate].
-      destruct (join_trajs_ok _ _ _ _ _ Hwf H) as [t2 [Ht2 [_ [_ [_ [_ [_ [_ [_ [_ [_ [Hf _]]]]]]]]]]]].
+    + fold (step v w (OJoin r others check_top dis)) in H.
+      destruct (join_step_full _ _ _ _ _ _ _ H) as [t0 [os [t2 [plan [_ [_ JF]]]]]].
+      destruct JF as [_ [Ht2 [_ [_ [_ [_ [_ [_ [_ [_ [_ [Hf _]]]]]]]]]]]].
       rewrite Ht in Ht2. apply app_inj_tail in Ht2. destruct Ht2 as [_ <-]. destruct Hf as [? _]. auto.
-    + unfold do_mdjoin in H. destruct (get_all w rs) as [[|t0 [|o rest]]|]; try discriminate.
-      destruct (join_trajs_ok _ _ _ _ _ Hwf H) as [t2 [Ht2 [_ [_ [_ [_ [_ [_ [_ [_ [_ [Hf _]]]]]]]]]]]].
+    + fold (step v w (OMdJoin rs dis)) in H.
+      destruct (mdjoin_step_full _ _ _ _ _ H) as [t0 [o [rest [t2 [plan [_ JF]]]]]].
+      destruct JF as [_ [Ht2 [_ [_ [_ [_ [_ [_ [_ [_ [_ [Hf _]]]]]]]]]]]].
       rewrite Ht in Ht2. apply app_inj_tail in Ht2. destruct Ht2 as [_ <-]. destruct Hf as [? _]. auto.
     + destruct inplace; [discriminate|].
       destruct (nth_error (trajs w) r) as [t0|] eqn:Hr; [|unfold do_atom_slice in H; rewrite Hr in H; discriminate].
@@ -1662,13 +1744,13 @@ Lemma cinvb_iff w : cinvb w = true <-> cinv w.
 Proof. unfold cinvb, cinv. rewrite forallb_forall, Forall_forall. tauto. Qed.
 
 Lemma d1_refuted :
-  guarded inplace_guard (mkVar false true) (init_world specs1) ops_d1 = true /\
-  cinvb (fst (run (mkVar false true) (init_world specs1) ops_d1)) = false.
+  guarded inplace_guard (mkVar false true false) (init_world specs1) ops_d1 = true /\
+  cinvb (fst (run (mkVar false true false) (init_world specs1) ops_d1)) = false.
 Proof. split; vm_compute; reflexivity. Qed.
 
 Lemma d2_refuted :
-  guarded inplace_guard (mkVar true false) (init_world specs1) ops_d2 = true /\
-  cinvb (fst (run (mkVar true false) (init_world specs1) ops_d2)) = false.
+  guarded inplace_guard (mkVar true false false) (init_world specs1) ops_d2 = true /\
+  cinvb (fst (run (mkVar true false false) (init_world specs1) ops_d2)) = false.
 Proof. split; vm_compute; reflexivity. Qed.
 
 Lemma alias_refuted :
@@ -1686,8 +1768,8 @@ Proof. split; vm_compute; reflexivity. Qed.
 (* non-vacuity: a history exercising every guard positively *)
 Definition ops_demo : list op :=
   [OSlice 0 (KSlice (Some 1%Z) (Some 3%Z) None) false; OCenter 1 false; OSlice 1 (KSlice None None (Some (-1)%Z)) true;
-   OSlice 0 (KList [3%Z; 0%Z; 0%Z]) true; OJoin 2 [2] true; OStack 2 2; OAtomSlice 2 [0%Z; 2%Z] true;
-   OSuperpose 3 0 (-1)%Z; OSetXyzNew 3 3 3; OCenter 3 true; OMdJoin [3; 3]].
+   OSlice 0 (KList [3%Z; 0%Z; 0%Z]) true; OJoin 2 [2] true false; OStack 2 2; OAtomSlice 2 [0%Z; 2%Z] true;
+   OSuperpose 3 0 (-1)%Z; OSetXyzNew 3 3 3; OCenter 3 true; OMdJoin [3; 3] true].
 Lemma demo_guards :
   guarded inplace_guard v_fix (init_world specs1) ops_demo = true /\
   guarded xyz_guard v_fix (init_world specs1) ops_demo = true /\
@@ -1695,34 +1777,10 @@ Lemma demo_guards :
 Proof. splits; vm_compute; reflexivity. Qed.
 
 (* ------------------------------------------------------------------ statements in terms of [step] *)
-Definition join_post (w : world) (t : traj) (others : list traj) (w' : world) (t' : traj) : Prop :=
-  trajs w' = trajs w ++ [t'] /\ hext w w' /\
-  frames w' t' = flat_map (frames w) (t :: others) /\
-  a_val (tm t') = flat_map (fun o => a_val (tm o)) (t :: others) /\
-  (if have_cell t then
-     exists l a, ul t' = Some l /\ ua t' = Some a /\ a_val l = ocat (map ul (t :: others)) /\ a_val a = ocat (map ua (t :: others))
-   else ul t' = None /\ ua t' = None) /\
-  na t' = na t /\ chains t' = chains t /\ tr t' = None /\ lengths_ok t' = true.
-
-Lemma join_step_ok v w r others ct w' :
-  wf w -> step v w (OJoin r others ct) = (w', ROk) ->
-  exists t os t', nth_error (trajs w) r = Some t /\ get_all w others = Some os /\ join_post w t os w' t'.
+(* without overlap trimming the parts are the whole operand fields *)
+Lemma jparts_all_false {A} (ls : list (list A)) : jparts (map (fun _ => false) ls) ls = concat ls.
 Proof.
-  intros Hwf H. cbn [step] in H. unfold do_join in H.
-  destruct (nth_error (trajs w) r) as [t|] eqn:Hr; [|discriminate].
-  destruct (get_all w others) as [os|] eqn:Ho; [|discriminate].
-  destruct (join_trajs_ok _ _ _ _ _ Hwf H) as [t' [A [B [C [D [E [F [G [I [J _]]]]]]]]]].
-  exists t, os, t'. unfold join_post. splits; auto.
-Qed.
-
-Lemma mdjoin_step_ok v w rs w' :
-  wf w -> step v w (OMdJoin rs) = (w', ROk) ->
-  exists t o rest t', get_all w rs = Some (t :: o :: rest) /\ join_post w t (o :: rest) w' t'.
-Proof.
-  intros Hwf H. cbn [step] in H. unfold do_mdjoin in H.
-  destruct (get_all w rs) as [[|t [|o rest]]|] eqn:Ho; try discriminate.
-  destruct (join_trajs_ok _ _ _ _ _ Hwf H) as [t' [A [B [C [D [E [F [G [I [J _]]]]]]]]]].
-  exists t, o, rest, t'. unfold join_post. splits; auto.
+  unfold jparts. induction ls as [|l r IH]; cbn; [reflexivity|]. now rewrite IH.
 Qed.
 
 Lemma run_cinv_init sps ops :
